@@ -300,6 +300,7 @@ pub fn rtr_setup_fails() -> bool {
 /// A lock guard that reports its release.
 ///
 /// The wrapped guard is dropped first, then the release is reported.
+#[derive(Debug)]
 pub struct Guard<G> {
     guard: Option<G>,
     lock: usize,
